@@ -222,6 +222,7 @@ func init() {
 		positions := fs.Bool("positions", false, "also compare error positions (C17)")
 		sut := fs.String("sut", "json", "json: Document.Check; schema: the schema scanner (graph exported from SchemaRef.tla)")
 		notes := fs.String("notes", "", "schema: ndjson of verdict differences (reported, never violations)")
+		prefixes := fs.String("prefixes", "", "ndjson of texts (JSON strings): every prefix of every text is judged as well")
 		robust := fs.Bool("robust", false, "C07: run the text also where the reference is silent; report panics, foreign errors and positions outside the text only")
 		fs.Parse(args)
 		var g graph
@@ -512,9 +513,28 @@ func init() {
 			rec([]byte{}, g.Init, 0)
 			wg.Wait()
 		}
+		// every prefix of real texts (layouts of the Gaps / Bind families): the graph knows all 256 bytes, beyond its nesting bound it has no verdict
+		var prefixTests int64
+		if *prefixes != "" {
+			var texts []string
+			readLines(openIn(*prefixes), func(line []byte) {
+				var t string
+				if json.Unmarshal(line, &t) == nil {
+					texts = append(texts, t)
+				}
+			})
+			parallelFor(len(texts), func(i int) {
+				b := []byte(texts[i])
+				for k := 0; k <= len(b); k++ {
+					judge(b[:k])
+					atomic.AddInt64(&prefixTests, 1)
+				}
+			})
+		}
 		_ = distinctStrings
 		sum := map[string]interface{}{
-			"states": g.N, "transitions": transitions, "wset": len(W), "byte_classes": len(reps), "tests": tests, "enumerated": enumerated,
+			"prefix_tests": prefixTests,
+			"states":       g.N, "transitions": transitions, "wset": len(W), "byte_classes": len(reps), "tests": tests, "enumerated": enumerated,
 			"unspecified": unspec, "mismatches": mism, "samples": samples, "lenient": lenient, "strict": strict, "located": located,
 		}
 		b, _ := json.Marshal(sum)
